@@ -768,14 +768,16 @@ private:
       {
         auto now = std::chrono::steady_clock::now();
         if (it->second.tls == parsedUrl.isHttps() &&
-            now - it->second.lastUsed < _config.connectionIdleTimeout)
+            now - it->second.lastUsed < _config.connectionIdleTimeout &&
+            stillOpenAndQuiet(it->second.id))
         {
           it->second.lastUsed = now;
           return it->second.id;
         }
-        // Idle, or opened for the other scheme (an https request must never ride
-        // a plain connection, nor an http request a TLS one): close and evict,
-        // then fall through to reconnect.
+        // Idle, opened for the other scheme (an https request must never ride
+        // a plain connection, nor an http request a TLS one), or already closed
+        // by the peer while it sat in the cache: close and evict, then fall
+        // through to reconnect.
         _transport->close(it->second.id);
         _connections.erase(it);
       }
@@ -810,6 +812,28 @@ private:
     }
 
     return sessionId;
+  }
+
+  /// \brief True if the cached \p sessionId can carry another request: the peer
+  /// has not closed it since the last exchange (a server may close a persistent
+  /// connection at any time, RFC 9112 §9.3 — the transport notes the close, but
+  /// setReadMode/sendSync on the dead session still report success) and no
+  /// input is waiting on it before a request was even written. Zero-timeout
+  /// receiveSync() in Sync mode: only Timeout means "open and quiet"; PeerClosed,
+  /// a byte or any other error evicts. Neither call blocks on I/O, so this may
+  /// run under _mutex like _transport->close(). Runs BEFORE any request byte is
+  /// written, so evicting here keeps the request in the provably-not-sent region.
+  bool stillOpenAndQuiet(SessionId sessionId) const
+  {
+    if (!_transport->setReadMode(sessionId, ReadMode::Sync))
+    {
+      return false;
+    }
+    char probe;
+    std::size_t len = sizeof(probe);
+    auto probeResult =
+      _transport->receiveSync(sessionId, &probe, len, std::chrono::milliseconds(0));
+    return probeResult.isErr() && probeResult.error().code == TransportError::Timeout;
   }
 
   /// \brief Close \p sessionId and evict it from the connection cache.
